@@ -1025,9 +1025,20 @@ func TestSidecarPartitionIDsVerbatim(t *testing.T) {
 // where it belongs (and nowhere else).
 func TestOptionsFromEnvironment(t *testing.T) {
 	kit.Check(t, 60, 1500, func(t *rapid.T) {
-		expire := time.Duration(rapid.IntRange(1, 5000).Draw(t, "expireMinutes")) * time.Minute
-		check := time.Duration(rapid.IntRange(1, 5000).Draw(t, "checkSeconds")) * time.Second
-		sessDur := time.Duration(rapid.IntRange(1, 5000).Draw(t, "sessionHours")) * time.Hour
+		// durations are taken as written: whole units as well as values with a remainder in a smaller unit (90s, 36h0m30s, 1.5s)
+		odd := func(label string, unit time.Duration) time.Duration {
+			d := time.Duration(rapid.IntRange(1, 5000).Draw(t, label)) * unit
+			switch rapid.IntRange(0, 3).Draw(t, label+"Remainder") {
+			case 1:
+				d += time.Duration(rapid.IntRange(1, 59).Draw(t, label+"Seconds")) * time.Second
+			case 2:
+				d += time.Duration(rapid.IntRange(1, 999).Draw(t, label+"Millis")) * time.Millisecond
+			}
+			return d
+		}
+		expire := odd("expireMinutes", time.Minute)
+		check := odd("checkSeconds", time.Second)
+		sessDur := odd("sessionHours", time.Hour)
 		sessMax := rapid.IntRange(1, 100000).Draw(t, "sessionCacheMax")
 		env := map[string]string{
 			"ASHERAH_SERVICE_NAME": "svc-" + fmt.Sprint(sessMax), "ASHERAH_PRODUCT_NAME": "prod-" + fmt.Sprint(sessMax),
